@@ -3,7 +3,9 @@
 
    ImplModel of feel-parser/src/lexer.rs consume_name (lines 550-705): the five-state machine that collects name
    parts and the position of the last character of every part, the longest-prefix loop against the flattened scope
-   keys, flatten_name_parts (lines 1040-1055) and Name::new (feel/src/names.rs lines 100-114).
+   keys, flatten_name_parts (lines 1040-1055) and Name::new (feel/src/names.rs lines 100-114) with the `str::trim` it applies
+   to every part (char::is_whitespace = the Unicode property White_Space, which is NOT the white space of the lexer: U+180E,
+   U+200B and U+FEFF are white space for the lexer only).  C06/Lexer.v takes name_new, collect and mem from here.
    Characters are Unicode scalar values (N); positions are indices into the input (nat).  No proofs here. *)
 From Coq Require Import List NArith Bool Arith.
 Import ListNotations.
@@ -91,7 +93,23 @@ Fixpoint str_eqb (a b : str) : bool :=
 
 Definition is_sym_part (p : str) : bool := match p with [c] => is_add_sym c | _ => false end.
 
-(* Name::new: a space between two parts unless one of them is an additional symbol *)
+(* char::is_whitespace of Rust (Unicode White_Space): what str::trim removes.  A subset of is_ws; of the name characters only
+   U+1680 is in it *)
+Definition is_white_space (c : N) : bool :=
+  between 9 13 c || (c =? 32)%N || (c =? 133)%N || (c =? 160)%N || (c =? 5760)%N || between 8192 8202 c ||
+  (c =? 8232)%N || (c =? 8233)%N || (c =? 8239)%N || (c =? 8287)%N || (c =? 12288)%N.
+
+Fixpoint trim_start (p : str) : str :=
+  match p with
+  | c :: r => if is_white_space c then trim_start r else p
+  | [] => []
+  end.
+
+(* str::trim *)
+Definition trim (p : str) : str := rev (trim_start (rev (trim_start p))).
+
+(* the loop of Name::new over the trimmed parts: a space between two parts unless one of them is an additional symbol; an empty
+   part adds nothing and counts as a word for the part after it (`prev = current`) *)
 Fixpoint name_new_go (first prev : bool) (ps : list str) : str :=
   match ps with
   | [] => []
@@ -101,7 +119,14 @@ Fixpoint name_new_go (first prev : bool) (ps : list str) : str :=
     sp ++ p ++ name_new_go false cur r
   end.
 
-Definition name_new (ps : list str) : str := name_new_go true false ps.
+Definition name_join (ps : list str) : str := name_new_go true false ps.
+
+(* Name::new (= From<Vec<String>>, From<Vec<&str>>): `parts.iter().map(|s| s.trim())`, then the loop.  Display, Jsonify and
+   From<Name> for String give this text back unchanged *)
+Definition name_new (ps : list str) : str := name_join (map trim ps).
+
+(* From<String> / From<&str> for Name: the whole text trimmed, nothing else (this is what the harness does with a name given as one string) *)
+Definition name_of_text (s : str) : str := trim s.
 
 (* str::replace(" c ", "c"): non-overlapping, left to right *)
 Fixpoint replace_sym (fuel : nat) (c : N) (s : str) : str :=
@@ -122,9 +147,9 @@ Fixpoint join_sp (ps : list str) : str :=
   | p :: r => p ++ 32%N :: join_sp r
   end.
 
-(* flatten_name_parts as it was before the repair (the parts never contain white space, so the trims are the identity) *)
+(* flatten_name_parts as it was before the repair: every part trimmed, joined with one space, the result trimmed, then the six replacements *)
 Definition flatten_parts_orig (ps : list str) : str :=
-  let s := join_sp ps in
+  let s := trim (join_sp (map trim ps)) in
   let n := S (length s) in
   replace_sym n 42 (replace_sym n 43 (replace_sym n 39 (replace_sym n 45 (replace_sym n 47 (replace_sym n 46 s))))).
 
